@@ -528,7 +528,10 @@ class Gen:
             if r < 0.3:
                 c = self.var()
             elif r < 0.65:
-                c = S('error', self.var() if rng.random() < 0.6 else S('type_error', self.var(), self.var()), self.var())
+                # the context argument is implementation defined: a variable of its own, never reported
+                self.void += 1
+                c = S('error', self.var() if rng.random() < 0.6 else S('type_error', self.var(), self.var()),
+                      V("_Ctx%d" % self.void))
             else:
                 c = self.data(1)
             return S('catch', self.goal_term(level, d), c, self.goal_term(level, d))
@@ -613,7 +616,7 @@ class Gen:
                 g = S(name, *[self.data(1) for _ in range(ar)]) if ar else A(name)
             else:
                 g = self.goal(-1, rng.choice([1, 2, 2, 3]))
-            vs = term_vars(g, [])
+            vs = [x for x in term_vars(g, []) if not x.startswith("_Ctx")]
             r = V('R')
             tmpl = S('v', *[V(x) for x in vs]) if vs else A('v')
             eq = S('=', r, tmpl)
